@@ -106,6 +106,14 @@ Theorem C08_branch_inplace_nodes : forall v n f t, NoDup (ids f) -> In t (pre_f 
 Proof. exact branch_inplace_nodes. Qed.
 Print Assumptions C08_branch_inplace_nodes.
 
+(* the whole tree after Node.filter: a sub-forest of the tree before (order, ancestry), every node once *)
+Theorem C08_branch_inplace_wellformed : forall v n f, NoDup (ids f) ->
+  emb (map (upd_at n (filter_inplace v)) f) f /\
+  sublist (ids (map (upd_at n (filter_inplace v)) f)) (ids f) /\
+  NoDup (ids (map (upd_at n (filter_inplace v)) f)).
+Proof. exact branch_inplace_wf. Qed.
+Print Assumptions C08_branch_inplace_wellformed.
+
 (* ---- the copying form (Tree.filtered, Tree.copy(predicate=), Node.…) ---- *)
 (* proved: F plus exactly the D24 leaves, modulo node identity; for every
    first allocation index (tree start: 1, branch start: 2, add_self=False: 1) *)
